@@ -7,6 +7,8 @@ import Gaftools.Drv.Order
 import Gaftools.Drv.Bgzf
 import Gaftools.Drv.GraphExtra
 import Gaftools.Drv.TextLayer
+import Gaftools.Drv.GfaText
+import Gaftools.Drv.Cli
 /-! The correspondence driver: one JSON object per line in, one per line out. -/
 open Lean Gaftools.Drv
 
@@ -36,6 +38,8 @@ def dispatch (op : String) (j : Json) : Except String Json :=
   | "findpath.run" => TextLayer.opRun j
   | "region.parse" => TextLayer.opRegion j
   | "text.spaces" => TextLayer.opSpaces j
+  | "gfa.parsetext" => GfaText.opParseText j
+  | "cli.parse" => Cli.opParse j
   | _ => throw s!"unknown op {op}"
 
 partial def loop (h : IO.FS.Stream) (out : IO.FS.Stream) : IO Unit := do
